@@ -9,10 +9,9 @@ ID = "C08"
 PROPS = "Props/C08.v"
 VM_SUBSET = 60
 # history passes of the runner: format()/to_*_string() called without a locale argument legitimately follow the documented process-wide
-# pendulum.set_locale (the helpers are compositions of format tokens); from_format with a weekday token and no date (shape "weekday-only")
-# picks that weekday inside now's week — Formatter._check_parsed: dt.start_of("week").subtract(days=1).next(dow) — and so follows the
-# documented week_starts_at/week_ends_at.  Nothing here may depend on the local timezone: it stays in the ambient pass.
-AMBIENT_DEPENDS = ("locale", "week")
+# pendulum.set_locale (the helpers are compositions of format tokens).  week_starts_at and the local timezone stay in the ambient pass for
+# every case except the ones marked by _mark_week_dependent below.
+AMBIENT_DEPENDS = ("locale",)
 RULE = ("DateTimes = boundary grid (years 1000/9999, leap days, midnight/noon/12h-24h edges, every microsecond width) x zones (named zones incl. "
         "half-hour/45-minute/negative/sub-minute-LMT offsets, fixed offsets, naive) + seeded random ones. Streams: token-grid (every token the "
         "_TOKENS regex can produce, one separator-joined format per DateTime, locale en), locale-tokens (each localizable token x 27 locales), "
@@ -305,7 +304,22 @@ def cases(tier, seed):
             ("Cumartesi", "dddd", "tr"), ("Cuma", "dddd", "tr"), ("mars 5", "MMMM D", "fr"), ("janv. 5", "MMM D", "fr"), ("janvX 5", "MMM D", "fr"), ("1er", "Do", "fr"), ("2e", "Do", "fr")]
     for m in misc:
         out.append({"stream": "parse-misc", "fn": "parse", "args": [m[2] if len(m) > 2 else "en", m[0], m[1], now]})
-    return out
+    return _mark_week_dependent(out)
+
+
+def _mark_week_dependent(cases_):
+    """from_format with a day-of-week token (d, E, dd, ddd, dddd) that is NOT accompanied by its own full date picks that weekday inside
+    the week of the date assembled so far — Formatter._check_parsed: dt.start_of("week").subtract(days=1).next(dow) — and so legitimately
+    follows the documented week_starts_at/week_ends_at ("the weekday within now's week").  Those cases (round-trip shape "weekday-only" and
+    the direct parse inputs with such a token) opt out of the `week` setting of the runner's ambient pass; every other case stays guarded
+    (with a full date of the same weekday the step returns that date under every week configuration)."""
+    import re
+    for c in cases_:
+        if c["fn"] == "roundtrip" and c["args"][4] == "weekday-only":
+            c["ambient_depends"] = ["week"]
+        elif c["fn"] == "parse" and re.search(r"d|E", re.sub(r"\[.*?\]", "", c["args"][2])):
+            c["ambient_depends"] = ["week"]
+    return cases_
 
 
 def roundtrip_case(rnd, s, now, shape):
